@@ -8,7 +8,7 @@
 //	      "cx:<name>"         corpus/C11/bases/<name> (files signed by relic)
 //	      "pad:<n>:<bb>"      head followed by n bytes bb
 //	      "tail:<hex>"        head followed by these bytes
-//	head  hex of the first min(len, 4096) bytes        len  total length
+//	head  hex of the first min(len, H) bytes, H = 65540 for a file that starts with MZ, else 4096        len  total length
 //	zn    what archive/zip reports for the file: "-" not asked, "E" NewReader fails, "0" no members,
 //	      else the member names in directory order, hex, comma separated ("." = empty name)
 //
@@ -72,8 +72,21 @@ import (
 	"verifharness/sg"
 )
 
-// BufSize is bufio's default buffer: the most Detect can look at.
-const BufSize = 4096
+// BufSize is the size of Detect's buffer (bufio.NewReaderSize(r, 0x10000+4)): the most Detect can look at.
+const BufSize = 0x10000 + 4
+
+// HeadLen: how much of a file an op line carries for the model.  Only the MZ probe looks beyond 262 bytes
+// (Relic.Props.C11.detect_agree_on_inspected), so 4096 bytes are plenty for every other file.
+func HeadLen(data []byte) int {
+	h := 4096
+	if len(data) >= 2 && data[0] == 'M' && data[1] == 'Z' {
+		h = BufSize
+	}
+	if len(data) < h {
+		h = len(data)
+	}
+	return h
+}
 
 // TypeNames: magic.FileType values in declaration order.
 var TypeNames = []string{"unknown", "rpm", "deb", "pgp", "jar", "pkcs7", "pecoff", "msi", "cab", "appmanifest", "cat", "appx",
@@ -181,10 +194,7 @@ func parseContent(f []string) (*content, string) {
 	if err != nil {
 		return nil, "bad-op src:" + strings.ReplaceAll(err.Error(), " ", "_")
 	}
-	n := len(data)
-	if n > BufSize {
-		n = BufSize
-	}
+	n := HeadLen(data)
 	if strconv.Itoa(len(data)) != f[2] || !bytes.Equal(head, data[:n]) {
 		return nil, "bad-table head/len do not describe the file"
 	}
@@ -294,7 +304,7 @@ func (c *failReader) Read(p []byte) (int, error) {
 func detectOp(data []byte) string {
 	cr := &countReader{r: bytes.NewReader(data)}
 	t := rmagic.Detect(cr)
-	for _, k := range []int{1, 7, 255, 4095} {
+	for _, k := range []int{1, 7, 255, 4095, 65539} {
 		c2 := &countReader{r: &chunkReader{b: data, k: k}}
 		if t2 := rmagic.Detect(c2); t2 != t {
 			return fmt.Sprintf("split chunk=%d %s vs %s", k, tname(t2), tname(t))
